@@ -576,6 +576,11 @@ def replay(rep):
         print("master forks:", masters, "reaps:", w.reaps, "reexec_pid at each reap:", w.reaps_ctx, "unlinked:", w.fs_unlinked)
         bad = len(masters) < 2 or (rep["unix"] and SOCK not in w.fs_unlinked)
         return 1 if bad else 0
+    if rep.get("kind") == "listener-fd":
+        fs = listener_fd_cases()
+        for f in fs:
+            print(f[0])
+        return 1 if fs else 0
     if rep.get("kind") == "handover":
         ls = [((a if isinstance(a, str) else tuple(a)), b) for a, b in rep["listeners_raw"]]
         fs = handover_case(ls, rep["systemd"], rep["pidconf"])
@@ -700,8 +705,69 @@ def handover_case(listeners, systemd, pidconf):
     return fails
 
 
+def listener_fd_cases():
+    """REAL gunicorn.sock.create_sockets with real sockets: every listener the master holds - bound by itself or adopted from
+    descriptors given by GUNICORN_FD / systemd / fd:// - must survive exec (inheritable), listen on the same address, and the
+    adopted descriptor must be the very socket the previous master listened on.  -> list of (failure text, replay)"""
+    import socket
+    import tempfile
+    import gunicorn.config as gconfig
+    import gunicorn.sock as gsock
+    fails = []
+    d = tempfile.mkdtemp(prefix="gvsock.", dir=A.scratch_root())
+    try:
+        for kind in ("unix", "tcp", "both"):
+            conf = gconfig.Config()
+            binds = []
+            if kind in ("unix", "both"):
+                binds.append("unix:" + os.path.join(d, "l-%s.sock" % kind))
+            if kind in ("tcp", "both"):
+                binds.append("127.0.0.1:0")
+            conf.set("bind", binds)
+            first = gsock.create_sockets(conf, L.NullLog(conf))
+            gen = first
+            try:
+                for generation in range(3):
+                    for l in gen:
+                        if not os.get_inheritable(l.sock.fileno()):
+                            fails.append(("listener %s of master generation %d (%s) is close-on-exec: the next USR2 cannot hand it over"
+                                          % (l.getsockname(), generation, "bound by itself" if generation == 0 else "adopted from inherited descriptors"),
+                                          {"kind": "listener-fd", "bind": kind, "generation": generation}))
+                        if not l.sock.getsockopt(socket.SOL_SOCKET, socket.SO_ACCEPTCONN):
+                            fails.append(("listener %s of generation %d does not listen" % (l.getsockname(), generation),
+                                          {"kind": "listener-fd", "bind": kind, "generation": generation}))
+                    # what exec leaves in the next master: the same open file descriptions under (new) descriptor numbers
+                    names = [l.getsockname() for l in gen]
+                    inos = [os.fstat(l.sock.fileno()).st_ino for l in gen]
+                    fds = [os.dup(l.sock.fileno()) for l in gen]
+                    nxt = gsock.create_sockets(conf, L.NullLog(conf), fds=fds)
+                    if [l.getsockname() for l in nxt] != names or [os.fstat(l.sock.fileno()).st_ino for l in nxt] != inos:
+                        fails.append(("generation %d adopted %r, the previous master listens on %r (same sockets expected)"
+                                      % (generation + 1, [l.getsockname() for l in nxt], names),
+                                      {"kind": "listener-fd", "bind": kind, "generation": generation + 1}))
+                    if gen is not first:
+                        for l in gen:
+                            l.close()
+                    gen = nxt
+            finally:
+                for l in list(gen) + list(first):
+                    try:
+                        l.close()
+                    except Exception:
+                        pass
+    finally:
+        import shutil
+        shutil.rmtree(d, ignore_errors=True)
+    return fails
+
+
 def run_handover(ctx):
     n = 0
+    lf = listener_fd_cases()
+    ctx.count_case(("listener-fd",), nontrivial=True)
+    ctx.hist("handover", "real-sockets-3-generations")
+    for text, rep in lf[:3]:
+        ctx.violation("exec hand-over (real gunicorn.sock): " + text, rep)
     for trial in range(40 if ctx.quick() else 400):
         k = ctx.rng.randint(1, 3)
         systemd = ctx.rng.random() < 0.3
@@ -742,6 +808,9 @@ def upgrade_scenario(name, bind="unix", stop_sig="TERM", worker_class="sync"):
     fails = []
     tr = []
     daemon = name == "winch-hup"
+    twice = name == "twice"
+    if twice:
+        name = "old-first"
     srv = R.Server(worker_class=worker_class, workers=1, graceful=3, bind=bind, daemon=daemon)
     sig = getattr(_signal, "SIG" + stop_sig)
     load = None
@@ -796,6 +865,25 @@ def upgrade_scenario(name, bind="unix", stop_sig="TERM", worker_class="sync"):
                 fails.append("after the old master exited the pid files are %r / %r, expected %r / none" % (srv.read_pid(), srv.read_pid(".2"), new))
             time.sleep(0.5)
             last = new
+            if twice:
+                # the promoted master (whose listeners came from inherited descriptors) is upgraded in turn
+                srv.signal(_signal.SIGUSR2, new)
+                new2 = wait_for(lambda: srv.read_pid(".2"), 15)
+                tr.append(("usr2-on-promoted", new, new2))
+                up = bool(new2) and bool(wait_for(lambda: len(srv.children(new2)) >= 1, 15))
+                time.sleep(0.5)
+                if not (up and R.pid_alive(new2) and len(srv.children(new2)) >= 1):
+                    fails.append("USR2 to the promoted master %r did not bring up a live new master with workers (pid file .2: %r)" % (new, new2))
+                else:
+                    stop(new)
+                    if not wait_for(lambda: gone(new), 15):
+                        fails.append("the promoted master did not exit")
+                    if bind == "unix" and not os.path.exists(srv.sock_path):
+                        fails.append("the unix socket file vanished when the promoted master exited after the second upgrade")
+                    if not wait_for(lambda: srv.read_pid() == new2 and srv.read_pid(".2") is None, 10):
+                        fails.append("after the second upgrade the pid files are %r / %r, expected %r / none" % (srv.read_pid(), srv.read_pid(".2"), new2))
+                    time.sleep(0.5)
+                    last = new2
         elif name == "new-first" or name == "winch-hup":
             if name == "winch-hup":
                 srv.signal(_signal.SIGWINCH, old)
@@ -918,10 +1006,11 @@ def run_real(ctx):
         else:
             ctx.violation("two real masters (python -m gunicorn): " + f, rep)
     if ctx.quick():
-        scns = [("old-first", "unix", "TERM", "sync"), ("new-first", "unix", "QUIT", "sync"), ("second-usr2", "tcp", "TERM", "gthread")]
+        scns = [("old-first", "unix", "TERM", "sync"), ("new-first", "unix", "QUIT", "sync"), ("second-usr2", "tcp", "TERM", "gthread"),
+                ("twice", "tcp", "TERM", "sync")]
     else:
         scns = []
-        for name in ("old-first", "new-first", "second-usr2", "winch-hup", "both"):
+        for name in ("old-first", "new-first", "second-usr2", "winch-hup", "both", "twice"):
             for bind in ("unix", "tcp"):
                 for sg in ("TERM", "QUIT"):
                     scns.append((name, bind, sg, "sync" if len(scns) % 2 == 0 else "gthread"))
